@@ -570,7 +570,7 @@ fn check_impl(env: &mut Env, h: &History, in_child: bool) -> Verdict {
         match &step.q {
             Q::ConsultGood(n) => {
                 if let Err(p) = consult(&mut m, &format!("c28_g({n}).\n")) {
-                    verdict = Some(Verdict::fail(format!("panic:{}:consult:{ctx}", panic_loc(&p)), format!("step {si}: consult_module_string of a correct fact panicked: {p}")));
+                    verdict = Some(Verdict::fail(sig(&format!("panic:{}", panic_loc(&p)), "consult", ctx), format!("step {si}: consult_module_string of a correct fact panicked: {p}")));
                     alive = false;
                     break;
                 }
@@ -703,7 +703,7 @@ fn check_impl(env: &mut Env, h: &History, in_child: bool) -> Verdict {
                         Some(it) if exception_matches(it, &want_exc) => {}
                         other => {
                             verdict = Some(Verdict::fail(
-                                format!("wrong-exception:{label}:fresh-machine"),
+                                format!("wrong-exception:{}:fresh-machine", if label.starts_with("rethrow") { "rethrow" } else { label.as_str() }),
                                 format!("on a fresh machine, {text}: the stream ends with {} but the query raises {}{}", other.map(|x| x.short()).unwrap_or("<nothing>".into()), if want_exc.0 { "error with Formal " } else { "the ball " }, want_exc.1.text()),
                             ));
                             break;
@@ -835,9 +835,14 @@ fn risky_labels(h: &History) -> String {
     v.dedup();
     // the hang-prone / state-damaging steps name the finding; plain exception steps only when
     // there is nothing else
-    let strong: Vec<String> = v.iter().filter(|l| l.starts_with("rethrow") || *l == "consult-bad").cloned().collect();
+    let mut strong: Vec<String> = v.iter().filter(|l| l.starts_with("rethrow") || *l == "consult-bad").map(|l| if l.starts_with("rethrow") { "rethrow".to_string() } else { l.clone() }).collect();
+    strong.dedup();
     if strong.is_empty() {
-        v.join("+")
+        if v.is_empty() {
+            String::new()
+        } else {
+            "after-exception".to_string()
+        }
     } else {
         strong.join("+")
     }
@@ -879,7 +884,7 @@ fn pool_index(label: &str) -> u16 {
 
 fn risky_histories() -> Vec<History> {
     let step = |label: &str, consume: u8| Step { q: Q::Pool(pool_index(label)), consume };
-    let prefixes: Vec<Vec<Step>> = vec![vec![], vec![step("det-true", 2)], vec![step("error-inst", 2)], vec![step("nondet3", 4), Step { q: Q::Assert(1), consume: 2 }]];
+    let prefixes: Vec<Vec<Step>> = vec![vec![step("nondet3", 4)]];
     let mut out = vec![];
     for e in POOL.iter().filter(|e| e.4) {
         for p in &prefixes {
@@ -891,7 +896,7 @@ fn risky_histories() -> Vec<History> {
         }
     }
     // an exception, then ordinary steps (the stale ball is reported again / converted from garbage)
-    for exc in ["error-inst", "ball", "ball-compound", "throw-after-3", "error-exist"] {
+    for exc in ["error-inst", "ball-compound", "throw-after-3"] {
         let followers: Vec<Vec<Step>> = vec![
             vec![Step { q: Q::Unify(crate::term::atom("a")), consume: 2 }],
             vec![step("nondet3", 5), step("det-true", 2)],
@@ -910,7 +915,6 @@ fn risky_histories() -> Vec<History> {
             vec![Step { q: Q::Unify(crate::term::atom("a")), consume: 2 }, step("nondet3", 5)],
             vec![Step { q: Q::Assert(0), consume: 2 }, step("read-h", 3)],
             vec![Step { q: Q::ConsultGood(1), consume: 0 }, step("read-g", 3)],
-            vec![step("nondet3", 5), step("error-inst", 2), step("det-fact", 2)],
         ];
         for f in followers {
             let mut steps = vec![step("det-fact", 2), Step { q: Q::ConsultBad(bad), consume: 0 }];
